@@ -285,6 +285,11 @@ pub fn child(root: &str, tier: &str) -> i32 {
             }
         }
     }
+    // a backlog: many eligible logs in one pass (archiving had failed for a while, then the directory was repaired)
+    for n in [16usize, 17, 20, 33, 65] {
+        let logs: Vec<(Content, Fault)> = (0..n).map(|i| (if i % 3 == 0 { Content::Three } else if i % 3 == 1 { Content::One } else { Content::Torn }, Fault::Ok)).collect();
+        cases.push(Case { logs, dirfault: DirFault::Present, rot: n % 23 });
+    }
     let mut viols: BTreeMap<String, (usize, String, String)> = BTreeMap::new();
     let mut outcomes: BTreeSet<String> = BTreeSet::new();
     let mut samples = Vec::new();
@@ -356,7 +361,7 @@ pub fn check(tier: &str) -> i32 {
         coverage: json!({
             "evaluations": v["cases"],
             "distinct_nontrivial": v["outcomes"],
-            "rule": "all WAL directories with 0..n eligible logs (+1 ineligible), per log content in {empty, 1 entry, 3 entries over a 23-value payload alphabet, 3 entries + torn last line, 5 entries with the second torn inside a multi-byte character and glued to the third (a line that is not UTF-8 followed by complete entries), 2 entries around a malformed line; the last two for up to 2 (thorough 3) eligible logs} x per-log archive fault in {none, archive name pre-created as a directory, same archive already present, other archive with the same name present} x archive dir in {present, missing, a regular file}; through WalCleaner::new(shard).cleanup_up_to(n) in conservative mode, then WalArchiveRecovery::recover_all; distinct_nontrivial = distinct (deleted set, recovered count) outcomes",
+            "rule": "all WAL directories with 0..n eligible logs (+1 ineligible), per log content in {empty, 1 entry, 3 entries over a 23-value payload alphabet, 3 entries + torn last line, 5 entries with the second torn inside a multi-byte character and glued to the third (a line that is not UTF-8 followed by complete entries), 2 entries around a malformed line; the last two for up to 2 (thorough 3) eligible logs} x per-log archive fault in {none, archive name pre-created as a directory, same archive already present, other archive with the same name present} x archive dir in {present, missing, a regular file}; plus backlogs of 16, 17, 20, 33 and 65 eligible logs in one pass; through WalCleaner::new(shard).cleanup_up_to(n) in conservative mode, then WalArchiveRecovery::recover_all; distinct_nontrivial = distinct (deleted set, recovered count) outcomes",
             "samples": v["samples"],
             "exhaustive": true,
         }),
